@@ -126,10 +126,18 @@ class EqShape:
         # harmless as an extra conjunct, but they do not cover the field
         self.weak: dict[str, str] = {}
         self.len_guard: set[str] = set()
+        # `if self.f is other.f: return True` shortcuts: (node, field, fields compared before it)
+        self.early_true: list[tuple] = []
+
+
+_ALIASES: dict[str, tuple] = {}  # local name -> ('self'|'other', attr) while one __eq__ is analysed
 
 
 def _side(node, self_names, other_names):
-    """('self'|'other', attr) if node is <name>.attr / getattr(<name>, 's')."""
+    """('self'|'other', attr) if node is <name>.attr / getattr(<name>, 's') /
+    a local bound to one (`jobs, other_jobs = self.jobs, other.jobs`)."""
+    if isinstance(node, ast.Name) and node.id in _ALIASES:
+        return _ALIASES[node.id]
     if isinstance(node, ast.Attribute) and isinstance(node.value, ast.Name):
         who = (
             "self"
@@ -181,6 +189,7 @@ def analyse_eq(ctx, fi: FuncInfo) -> EqShape:
     self_names, other_names = {params[0]}, {params[1]}
     fields = instance_fields(ctx, ci)
     helper_stack: list[str] = []
+    _ALIASES.clear()
 
     def operand(node, positive=True):
         """Consumes one conjunct of the equality condition."""
@@ -470,6 +479,18 @@ def analyse_eq(ctx, fi: FuncInfo) -> EqShape:
                     and not st.orelse
                 ):
                     continue
+                # `if self.f is other.f: return True` - a shortcut on ONE field: sound
+                # only for what has been compared before it plus that field
+                if (
+                    isinstance(st.test, ast.Compare) and len(st.test.ops) == 1 and isinstance(st.test.ops[0], (ast.Is, ast.Eq))
+                    and len(st.body) == 1 and isinstance(st.body[0], ast.Return)
+                    and isinstance(st.body[0].value, ast.Constant) and st.body[0].value.value is True and not st.orelse
+                ):
+                    sa = _side(st.test.left, self_names, other_names)
+                    sb = _side(st.test.comparators[0], self_names, other_names)
+                    if sa and sb and {sa[0], sb[0]} == {"self", "other"} and sa[1] == sb[1]:
+                        sh.early_true.append((st, sa[1], set(sh.fields)))
+                        continue
                 # `if cond: return False`  ==  conjunct not cond
                 if (
                     len(st.body) == 1
@@ -492,8 +513,23 @@ def analyse_eq(ctx, fi: FuncInfo) -> EqShape:
                 if isinstance(v, ast.Name) and v.id in other_names:
                     for t in st.targets:
                         other_names.add(t.id)
+                elif _side(v, self_names, other_names) and len(st.targets) == 1:
+                    # a local naming one operand's field
+                    _ALIASES[st.targets[0].id] = _side(v, self_names, other_names)
                 else:
                     sh.unknown.append(st)
+            elif (
+                isinstance(st, ast.Assign) and len(st.targets) == 1 and isinstance(st.targets[0], ast.Tuple) and isinstance(st.value, ast.Tuple)
+                and len(st.targets[0].elts) == len(st.value.elts) and all(isinstance(t, ast.Name) for t in st.targets[0].elts)
+                and all(_side(v, self_names, other_names) for v in st.value.elts)
+            ):
+                for t, v in zip(st.targets[0].elts, st.value.elts):
+                    _ALIASES[t.id] = _side(v, self_names, other_names)
+            elif isinstance(st, ast.For) and not st.orelse and _rejection_loop(st):
+                # for a, b in zip(x, y): if <...>: return False  - an early
+                # rejection: as a conjunct it cannot make different objects
+                # equal, and it covers nothing
+                continue
             elif isinstance(st, ast.Assert):
                 continue
             else:
@@ -542,6 +578,8 @@ def analyse_eq(ctx, fi: FuncInfo) -> EqShape:
                 sh.guard_ok = True
             else:
                 sh.guard_problem = (st, "failing type guard does not return False/NotImplemented")
+            if st.orelse:
+                walk(st.orelse)  # `if not isinstance(..): return False  else: <the comparison>`
             return True
         # positive form: if isinstance(o, C): <compare> ; return False
         walk(st.body)
@@ -550,6 +588,17 @@ def analyse_eq(ctx, fi: FuncInfo) -> EqShape:
 
     walk(body_of(fi.node))
     return sh
+
+
+def _rejection_loop(lp: ast.For) -> bool:
+    """The loop body consists of `if <test>: return False` statements only."""
+    for st in lp.body:
+        if not (
+            isinstance(st, ast.If) and not st.orelse and len(st.body) == 1 and isinstance(st.body[0], ast.Return)
+            and isinstance(st.body[0].value, ast.Constant) and st.body[0].value.value is False
+        ):
+            return False
+    return bool(lp.body)
 
 
 def _const_pred(node, var, value):
@@ -644,9 +693,33 @@ def run(ctx):
                     )
                 except AnalysisError:
                     pass
+    refusals: list[str] = []
     for ci, eq, required in targets:
         sh = analyse_eq(ctx, eq)
+        if sh.unknown:
+            # delegated to a helper (a shared comparison function, a table of
+            # attribute names): judged on the written-out form
+            try:
+                eqf = ctx.norm.flat(eq, depth=3)
+                if ast.dump(eqf.node) != ast.dump(eq.node):
+                    sh2 = analyse_eq(ctx, eqf)
+                    if len(sh2.unknown) < len(sh.unknown):
+                        sh, eq = sh2, eqf
+            except AnalysisError:
+                pass
         n += 1
+        for node_, fld_, before_ in sh.early_true:
+            covered_ = before_ | {fld_}
+            skipped_ = [alt for alt in required if not (alt & covered_)]
+            if len(required) == 1 and skipped_ == []:
+                continue
+            if skipped_:
+                sh.problems.append((
+                    node_,
+                    f"`{ast.unparse(node_.test)}` returns True as soon as `{fld_}` is the same on both sides, before "
+                    + ", ".join("/".join(sorted(a)) for a in skipped_)
+                    + " has been compared: objects that differ only there compare equal",
+                ))
         for node, msg in sh.problems:
             chk.violation("R15.a", eq, node, msg)
         missing = [alt for alt in required if not (alt & sh.fields)]
@@ -655,10 +728,12 @@ def run(ctx):
                 if all(alt & sh.fields for alt in cover):
                     missing = []
         if missing and not sh.problems and sh.unknown:
-            raise AnalysisError(
+            # the other classes are still judged; the refusal is reported at the end
+            refusals.append(
                 f"{eq.qualname}: unrecognised equality shape "
                 f"({ast.unparse(sh.unknown[0])[:80]!r}); cannot decide field coverage"
             )
+            continue
         if missing and not sh.problems:
             weak = {f: sh.weak[f] for alt in missing for f in alt if f in sh.weak}
             chk.violation(
@@ -698,3 +773,5 @@ def run(ctx):
             else:
                 chk.ok("R15.b", h.qualname, h.loc(), f"hash fields {sorted(hf)} ⊆ eq fields")
     chk.floor("R15.a", n, 4, "__eq__ definitions")
+    if refusals and not chk.unlisted():
+        raise AnalysisError("; ".join(refusals))
